@@ -315,7 +315,15 @@ func run(c *hc.Ctx) {
 		if c.Bool() {
 			p = p.Reverse()
 		}
-		p = p.Transform(canvas.Identity.Rotate(c.Range(0, 360)).Translate(c.GenCoord(), c.GenCoord()))
+		switch c.Intn(4) {
+		case 0: // as constructed: the start point is an extreme point of the shape (Circle starts at its right-most point)
+			c.Count("ccw:untransformed")
+		case 1:
+			p = p.Transform(canvas.Identity.Rotate(float64(c.Intn(4)) * 90).Translate(float64(c.Intn(9)-4), float64(c.Intn(9)-4)))
+			c.Count("ccw:quarter-turns")
+		default:
+			p = p.Transform(canvas.Identity.Rotate(c.Range(0, 360)).Translate(c.GenCoord(), c.GenCoord()))
+		}
 		c.Evals++
 		fl, _ := hc.Contours(p.Flatten(0.001))
 		if len(fl) != 1 {
@@ -363,7 +371,15 @@ func run(c *hc.Ctx) {
 		for rule := 0; rule < 4; rule++ {
 			var f []bool
 			if msg := hc.Try(func() { f = both.Filling(canvas.FillRule(rule)) }); msg != "" {
-				c.Fail("panic:Filling", "Filling panicked: "+msg, map[string]any{"P": both.String()})
+				// Filling casts its rays from the start vertex of each subpath: the recorded near-level
+				// defect of windings() applies when a vertex of the other subpath is within the band of
+				// that level without being exactly level
+				kind := "panic:Filling:" + strings.SplitN(msg, "\n", 2)[0]
+				fi, _ := hc.Contours(inner.Flatten(0.001))
+				if (len(fi) > 0 && len(fi[0]) > 0 && illConditioned(fi[0][0], fo)) || (len(fo[0]) > 0 && illConditioned(fo[0][0], fi)) {
+					kind += "+near-level"
+				}
+				c.Fail(kind, "Filling panicked: "+msg, map[string]any{"P": both.String()})
 				break
 			}
 			wOuter := 1
@@ -377,7 +393,11 @@ func run(c *hc.Ctx) {
 			}
 			exp := []bool{fills(rule, wOuter), fills(rule, wInner)}
 			if len(f) != 2 || f[0] != exp[0] || f[1] != exp[1] {
-				c.Fail("filling", fmt.Sprintf("Filling(%d)=%v, expected %v (windings %d and %d)", rule, f, exp, wOuter, wInner), map[string]any{"P": both.String(), "rule": rule})
+				kind := "filling"
+				if (len(fi[0]) > 0 && illConditioned(fi[0][0], fo)) || (len(fo[0]) > 0 && illConditioned(fo[0][0], fi)) {
+					kind += "+near-level" // the ray from a start vertex passes within the band of a vertex of the other subpath
+				}
+				c.Fail(kind, fmt.Sprintf("Filling(%d)=%v, expected %v (windings %d and %d)", rule, f, exp, wOuter, wInner), map[string]any{"P": both.String(), "rule": rule})
 			}
 			c.Count("filling")
 		}
